@@ -90,7 +90,14 @@ func (r *real) ExecHint(line string) (out string, twinLine string) {
 				s.Devs.Conns["rel-"+args[1]] = string(o.GetRelation().TgtEntityID)
 			}
 		case "devrestart":
+			// the device restarts empty and every connection to it is lost
 			s.Devs.State["t"+args[1]] = map[string]string{}
+			for id, t := range s.Devs.Conns {
+				if t == "t"+args[1] {
+					delete(s.Devs.Conns, id)
+				}
+			}
+			s.Topo.RemoveRelationsTo("t" + args[1])
 		default:
 			return "bad-op", line
 		}
@@ -160,6 +167,10 @@ func (r *real) ExecHint(line string) (out string, twinLine string) {
 		return fmt.Sprintf("res requeue=%s err=%s effects=%d %s", res.Requeue, errS, res.Effects, s.State()), twinLine
 	case "v2.state":
 		return s.State(), line
+	case "v2.drain":
+		// real-only: drive the controllers to their fixed point (args: the targets)
+		n, ok := s.Drain(args, 60)
+		return fmt.Sprintf("drained sweeps=%d quiescent=%v %s", n, ok, s.State()), line
 	}
 	return "bad-op", line
 }
